@@ -20,6 +20,7 @@ import numpy as np
 from vt import alg, extract, sx, symrun, npshim
 from vt.alg import Ctx, X
 from vt.core import Ob, Verdict, Refuted, Unsupported, DISCHARGED, REFUTED
+from . import ops
 from . import common
 
 PROP = "C17"
@@ -639,13 +640,15 @@ def build(tier, seed):
     obs.append(Ob("canary.history.max", ob_history_max, (True,), "P", expect=REFUTED))
     functions = {q: extract.get(MP, f"PhaseField.{q}").describe() for q in ("_Eigen_values_vectors_projectors", "Calc_C", "Get_r_e_pg", "Get_f_e_pg")}
     functions["__Calc_psiPlus_e_pg"] = extract.get(SPF, "PhaseField.__Calc_psiPlus_e_pg").describe()
+    obs += ops.phasefield_obligations('C17', tier)
+    obs.append(ops.selfcheck_ob('C17'))
     return dict(
         obs=obs, level="other", min_obligations=40,
         explanation=("Closed-form terms and the history maximum are proved from the AST. The 2-D eigen-decomposition is the real method run on exact "
                      "symbolic strains for every combination of degenerate and generic points in small fields (complete in values). The 14 splits in 2-D and "
                      "3-D and the 3-D Lode-angle eigen code (arccos/cos: not algebraic) are checked by run-time contracts on the real model at designated "
                      "degenerate/generic/mixed states in floats -- bounded and sampled, labelled X."),
-        trusted_base=["vt/npshim.py + vt/symrun.py", "numpy eigh as independent oracle for the float contracts", "sympy normal form"],
+        trusted_base=ops.GP_TRUST + ["vt/npshim.py + vt/symrun.py", "numpy eigh as independent oracle for the float contracts", "sympy normal form"],
         assumptions=["monotonicity of the SOLVED damage field for the unconstrained linear solve is not addressed (discrete maximum principle, not code)",
                      "staggered-loop convergence not addressed", "3-D eigen code: float run-time contracts only"],
         functions=functions,
